@@ -31,6 +31,7 @@ static int ncase;
 
 #define MAX_IN 65536
 static uint64_t replay_in[MAX_IN];
+static unsigned char replay_any[MAX_IN];   /* input not present in the solver trace (sliced away: any value will do) */
 static unsigned replay_n, replay_pos;
 
 static uint64_t splitmix(void)
@@ -68,8 +69,10 @@ uint64_t vf_native_in(uint64_t mask)
 
 uint64_t vf_native_range(uint64_t lo, uint64_t hi)
 {
+    int any = mode == MODE_REPLAY && (replay_pos >= replay_n || replay_any[replay_pos]);
     uint64_t v = next_raw();
     if (mode == MODE_REPLAY) {
+        if (any) return lo;
         if (v < lo || v > hi) {
             fprintf(stderr, "REPLAY: input %llu outside assumed range [%llu,%llu]\n", (unsigned long long)v, (unsigned long long)lo, (unsigned long long)hi);
             fflush(0); _exit(3);
@@ -141,6 +144,7 @@ int main(int argc, char** argv)
             char nm[64]; long v; unsigned long long u;
             if (sscanf(line, "case %63s %ld", nm, &v) == 2) add_case(nm, v);
             else if (sscanf(line, "in %llu", &u) == 1 && replay_n < MAX_IN) replay_in[replay_n++] = u;
+            else if (strncmp(line, "any", 3) == 0 && replay_n < MAX_IN) { replay_any[replay_n] = 1; replay_in[replay_n++] = 0; }
         }
         fclose(f);
         harness();
